@@ -470,13 +470,16 @@ class World(object):
             tok = self._tok(c.a)
             toks.append(tok)
             topics.append((self._topic(tkind, tok) + "/s", (qos + k) % 3))
+        # for the tuple and list shapes the separate qos argument is a decoy: the QoS of each
+        # entry is the one inside the tuple (every other call passes a different value there)
+        decoy = {"qos": (topics[0][1] + 1 + toks[0] % 2) % 3} if toks[0] % 2 else {}
         if shape == "str":
             args = ((topics[0][0], topics[0][1]), {})
         elif shape == "tuple":
-            args = ((topics[0],), {})
+            args = ((topics[0],), decoy)
         else:
-            args = ((list(topics),), {})
-        info = {"tokens": toks, "topics": topics, "shape": shape}
+            args = ((list(topics),), decoy)
+        info = {"tokens": toks, "topics": topics, "shape": shape, "decoy": decoy}
         return self._api(c, "subscribe", c.proto.subscribe, args, info)
 
     def _api_unsubscribe(self, c, shape, n, tkind="plain"):
